@@ -2240,6 +2240,13 @@ class BaseInterpreter(Generic[TContext, TEvent]):
                     data=self._resolve_output(final_state),
                     src=ancestor.id,
                 )
+                # 🔁 A done event raised while an event is being processed is
+                #    self-fed exactly like a `raise`: count it, so the run
+                #    loop's chain breaker also stops an `onDone` that
+                #    re-completes its own state. Uncounted, that chain spun
+                #    forever without ever yielding to the event loop.
+                if getattr(self, "_processing", False):
+                    self._raise_depth = getattr(self, "_raise_depth", 0) + 1
                 await self.send(done_event)
                 # Per SCXML, only fire for the first completed ancestor.
                 return
